@@ -14,7 +14,7 @@ import numpy as np
 
 import core
 
-PROOF_MODULES = ["UnytProofs.C08", "UnytProofs.C08Tab", "UnytProofs.C08Tab2", "UnytProofs.C08Tab3", "UnytProofs.C08Tab4"]
+PROOF_MODULES = ["UnytProofs.C08", "UnytProofs.C08Seq", "UnytProofs.C08Reduce", "UnytProofs.C08Tab", "UnytProofs.C08Tab2", "UnytProofs.C08Tab3", "UnytProofs.C08Tab4", "UnytProofs.C08Tab5"]
 
 # --------------------------------------------------------------------------------------
 # the independent reference (also embedded verbatim in every replay file)
@@ -82,8 +82,10 @@ def t_expect_additive(op, n0, x0, n1, x1):
         return "diff", t_abs(n0, x0) - t_abs(n1, x1)
     return None
 
-def t_check_additive(op, n0, xs0, n1, xs1, label, vs):
-    """None if the returned labelled readings are what affine arithmetic gives, else a message"""
+def t_check_additive(op, n0, xs0, n1, xs1, label, vs, extra_kelvin=0.0):
+    """None if the returned labelled readings are what affine arithmetic gives, else a message.
+    extra_kelvin: magnitude (in kelvin) of zero points that were added and subtracted on the way
+    (offset conversions cancel them in floating point), part of the rounding scale"""
     for x0, x1, v in zip(xs0, xs1, vs):
         e = t_expect_additive(op, n0, x0, n1, x1)
         if e is None:
@@ -93,9 +95,41 @@ def t_check_additive(op, n0, xs0, n1, xs1, label, vs):
             return "a %s result is labelled with the %s unit %s" % (kind, t_kind(label), label)
         want = t_reading(kind, label, kel)
         scale = abs(float(x0) * float(t_size(n0) / t_size(label))) + abs(float(x1) * float(t_size(n1) / t_size(label)))
+        scale += float(extra_kelvin) / float(t_size(label))
         if not t_near(v, want, scale):
             return "%r [%s] %s %r [%s] returned %r [%s]; affine arithmetic gives %r [%s]" % (
                 x0, n0, op, x1, n1, float(v), label, float(want), label)
+    return None
+
+def t_expect_reduce_initial(op, n, xs, ni, xi):
+    """(kind, kelvin) affine arithmetic requires of `q + a[0] + a[1] + ...` (op 'add') or
+    `q - a[0] - a[1] - ...` (op 'sub') with data xs [n] and start value xi [ni], or None (no claim)"""
+    ku, ki = t_kind(n), t_kind(ni)
+    tot = sum((t_dif(n, x) for x in xs), _F(0))
+    sgn = 1 if op == "add" else -1
+    if ku == "diff" and ki == "diff":
+        return "diff", t_dif(ni, xi) + sgn * tot
+    if ku == "diff" and ki == "point":
+        return "point", t_abs(ni, xi) + sgn * tot
+    if op == "add" and ku == "point" and ki == "diff" and len(xs) == 1:
+        return "point", t_abs(n, xs[0]) + t_dif(ni, xi)
+    if op == "sub" and ku == "point" and ki == "point" and len(xs) == 1:
+        return "diff", t_abs(ni, xi) - t_abs(n, xs[0])
+    return None
+
+def t_check_reduce_initial(op, n, xs, ni, xi, label, v):
+    e = t_expect_reduce_initial(op, n, xs, ni, xi)
+    if e is None:
+        return None
+    kind, kel = e
+    if t_kind(label) != kind:
+        return "a %s result is labelled with the %s unit %s (value %r)" % (kind, t_kind(label), label, float(v))
+    want = t_reading(kind, label, kel)
+    scale = abs(float(xi) * float(t_size(ni) / t_size(label))) + sum(abs(float(x) * float(t_size(n) / t_size(label))) for x in xs)
+    scale += (abs(float(t_abs(n, 0))) + abs(float(t_abs(ni, 0))) + abs(float(t_abs(label, 0)))) / float(t_size(label))
+    if not t_near(v, want, scale):
+        return "start value %r [%s] %s data %r [%s] returned %r [%s]; affine arithmetic gives %r [%s]" % (
+            xi, ni, op, xs, n, float(v), label, float(want), label)
     return None
 '''
 
@@ -110,6 +144,7 @@ t_near = _ref["t_near"]
 t_reading = _ref["t_reading"]
 t_different_offset_scales = _ref["t_different_offset_scales"]
 t_check_additive = _ref["t_check_additive"]
+t_check_reduce_initial = _ref["t_check_reduce_initial"]
 
 BASES = ["K", "R", "degC", "degF", "delta_degC", "delta_degF"]
 ALT_SPELLINGS = {"°C": "degC", "°F": "degF", "degree_celsius": "degC", "celsius": "degC", "degree_fahrenheit": "degF",
@@ -541,6 +576,185 @@ def run(tier, seed):
             except Exception:  # noqa: BLE001
                 pass
 
+
+    # ---- Python sequences (list / tuple) of quantities as operands: _coerce_iterable_units -------
+    # unyt_array([q0, q1, ...]) and BOTH operands of every binary ufunc accept a list/tuple of
+    # quantities in different units, unified to the unit of the first element.  All ordered pairs
+    # (array unit, first unit of the sequence); the second element cycles through the units of the
+    # first element's kind, the third through all units.
+    SEQ_COERCE = [("list", "r = unyt_array(b)"), ("tuple", "r = unyt_array(tuple(b))"), ("arrays", "r = unyt_array([unyt_array([q.d, q.d], q.units) for q in b])")]
+    SEQ_ADD = [("right", "operator", "r = a + b"), ("right", "ufunc-tuple", "r = np.add(a, tuple(b))"), ("right", "inplace", "r = a.copy(); r += b"),
+               ("right", "out", "r = a.copy(); np.add(a, b, out=r)"), ("left", "operator", "r = b + a"), ("left", "ufunc", "r = np.add(b, a)")]
+    SEQ_SUB = [("right", "operator", "r = a - b"), ("right", "ufunc-tuple", "r = np.subtract(a, tuple(b))"), ("right", "inplace", "r = a.copy(); r -= b"),
+               ("right", "out", "r = a.copy(); np.subtract(a, b, out=r)"), ("left", "operator", "r = b - a"), ("left", "ufunc", "r = np.subtract(b, a)")]
+    SEQ_CMP = [("right", "lt", "r = a < b", "lt"), ("right", "np.greater_equal", "r = np.greater_equal(a, tuple(b))", "ge"), ("right", "eq", "r = a == b", "eq"),
+               ("left", "np.less", "r = np.less(b, a)", "lt"), ("left", "np.not_equal", "r = np.not_equal(tuple(b), a)", "ne")]
+    by_kind = {"point": [u for u in units if u.kind == "point"], "diff": [u for u in units if u.kind == "diff"]}
+    nseq = 0
+    for i0, u0 in enumerate(units):
+        for i1, uf in enumerate(units):
+            nseq += 1
+            same = by_kind[uf.kind]
+            u2 = same[(i0 + 3 * i1) % len(same)]
+            u3 = units[(5 * i0 + i1 + seed) % len(units)]
+            sus = [uf, u2, u3]
+            xs0 = readings(rng, 3)
+            ys = readings(rng, 3)
+            b_src = "[" + ", ".join(f"unyt_quantity({y!r}, {u.spelling!r})" for u, y in zip(sus, ys)) + "]"
+            a_src = mk_src("a", xs0, u0.spelling)
+            src = guarded(f"a = {a_src}\nb = {b_src}\n")
+            mkb = lambda: [unyt_quantity(y, u.spelling) for u, y in zip(sus, ys)]  # noqa: E731
+            claim = [i for i, u in enumerate(sus) if u.kind == uf.kind]  # elements the arithmetic oracle speaks about
+            chk.count(f"seq:{u0.kind}-{uf.kind}")
+            seqwire = ",".join(u.wire for u in sus) + "\t" + ",".join(str(f2b(y)) for y in ys)
+            # -- unification itself (the conversion clause): every reading marks the same temperature as its element
+            if i0 == i1 or (i0 + i1) % 6 == 0:  # the array unit plays no role here: a sixth of the pairs is enough
+                outcomes = {}
+                for fname, code in SEQ_COERCE:
+                    ns = {"b": mkb(), "np": np, "unyt_array": unyt_array}
+                    try:
+                        exec(code, ns)
+                        res = ("ok", ns["r"])
+                    except Exception as e:  # noqa: BLE001
+                        res = ("err", core.exc_name(e))
+                    chk.case(("seq-coerce", tuple(u.name for u in sus), fname))
+                    rep_n = 2 if fname == "arrays" else 1
+                    if res[0] == "ok":
+                        r = res[1]
+                        label = repr(getattr(r, "units", None))
+                        vs = vals(np.asarray(r).T) if fname == "arrays" else vals(r)
+                        outcomes[fname] = ("ok", label, vs[:3])
+                        for i, (u, y) in enumerate(zip(sus, ys)):
+                            bad = label != uf.name
+                            want = None
+                            if not bad:
+                                want = t_reading("point", label, t_abs(u.name, y))
+                                sc = abs(y * float(t_size(u.name) / t_size(label))) + abs(float(t_abs(u.name, 0) / t_size(label))) + abs(float(t_abs(label, 0) / t_size(label)))
+                                bad = any(not t_near(v, want, sc) for v in vs[i::3][:rep_n])
+                            if bad:
+                                chk.fail(f"wrong-value|coerce|{uf.shape}|{u.shape}",
+                                         f"{code.split('= ', 1)[1]} with b = {b_src}: element {i} became {vs[i]} [{label}]; the affine map to {uf.name} gives {None if want is None else float(want)}",
+                                         {"python": snippet(guarded(f"b = {b_src}\n") + f"{code}\n"
+                                                            f"assert repr(r.units) == {uf.name!r}, r\n"
+                                                            f"vs = [float(v) for v in np.asarray(r){'.T' if fname == 'arrays' else ''}.ravel()]\n"
+                                                            f"for i, (n, y) in enumerate({[(u.name, y) for u, y in zip(sus, ys)]!r}):\n"
+                                                            f"    want = t_reading('point', {uf.name!r}, t_abs(n, y))\n"
+                                                            f"    sc = abs(y * float(t_size(n) / t_size({uf.name!r}))) + abs(float(t_abs(n, 0) / t_size({uf.name!r}))) + abs(float(t_abs({uf.name!r}, 0) / t_size({uf.name!r})))\n"
+                                                            f"    assert t_near(vs[i], want, sc), (i, r, float(want))\n"), "form": fname})
+                                break
+                    else:
+                        outcomes[fname] = res
+                ask(f"c08.coerce\t{seqwire}", ("coerce", sus, ys, outcomes))
+            # -- additive forms with the sequence on either side
+            mixed_r = t_different_offset_scales(u0.name, uf.name)
+            for op, forms, opc in (("add", SEQ_ADD, "c08.seqadd"), ("sub", SEQ_SUB, "c08.seqsub")):
+                outcomes = {"left": {}, "right": {}}
+                for side, fname, code in forms:
+                    res = run_form(code, mk("a", xs0, u0.spelling), mkb())
+                    chk.case(("seq", op, side, fname, u0.name, tuple(u.name for u in sus)))
+                    body = f"def f():\n    {code.replace('; ', chr(10) + '    ')}\n    return r\nbad, r = raises(f)\n"
+                    if res[0] == "ok":
+                        r = res[1]
+                        label = repr(getattr(r, "units", None))
+                        vs = vals(r)
+                        outcomes[side][fname] = ("ok", label, vs)
+                        if mixed_r:
+                            chk.fail(f"no-refusal|seq-{op}|{u0.shape}|{uf.shape}",
+                                     f"{code} with a in {u0.spelling} and b = {b_src} (two different offset scales) returned {r!r}",
+                                     {"python": snippet(src + RAISES_SRC + body + "assert bad, ('two different offset scales combined without an error', r)\n"), "form": fname})
+                            continue
+                        for i in claim:
+                            u = sus[i]
+                            args = (op, u0.name, [xs0[i]], u.name, [ys[i]]) if side == "right" else (op, u.name, [ys[i]], u0.name, [xs0[i]])
+                            xk = abs(float(t_abs(u.name, 0))) + abs(float(t_abs(uf.name, 0)))  # the element went through u -> uf
+                            try:
+                                msg = t_check_additive(*args, label, [vs[i]], xk) if len(vs) == 3 else f"{len(vs)} results for 3 elements"
+                            except ValueError as e:
+                                msg = f"result labelled {label}: {e}"
+                            if msg:
+                                chk.fail(f"wrong-value|seq-{op}|{side}|{u0.shape}|{uf.shape}|{u.shape}", f"{code} with a = {a_src}, b = {b_src}: element {i}: {msg}",
+                                         {"python": snippet(src + RAISES_SRC + body + "if not bad:\n    vs = [float(v) for v in np.asarray(r).ravel()]\n"
+                                                            f"    m = t_check_additive(*{args!r}, repr(r.units), [vs[{i}]], {xk!r})\n    assert m is None, m\n"), "form": fname})
+                                break
+                    else:
+                        outcomes[side][fname] = res
+                for side in ("right", "left"):
+                    ask(f"{opc}\t{side}\t{u0.wire}\t" + ",".join(str(f2b(x)) for x in xs0) + f"\t{seqwire}", ("seqbin", op, side, u0, sus, xs0, ys, outcomes[side]))
+            # -- comparisons
+            outcomes = {"left": {}, "right": {}}
+            for side, fname, code, pyop in SEQ_CMP:
+                res = run_form(code, mk("a", xs0, u0.spelling), mkb())
+                chk.case(("seq-cmp", side, fname, u0.name, tuple(u.name for u in sus)))
+                body = f"def f():\n    {code}\n    return r\nbad, r = raises(f)\n"
+                if res[0] == "ok":
+                    got = [bool(x) for x in np.asarray(res[1]).ravel()]
+                    outcomes[side][fname] = ("ok", pyop, got)
+                    if mixed_r:
+                        chk.fail(f"no-refusal|seq-compare|{u0.shape}|{uf.shape}", f"{code} with a in {u0.spelling} and b = {b_src} (two different offset scales) returned {got}",
+                                 {"python": snippet(src + RAISES_SRC + body + "assert bad, r\n"), "form": fname})
+                    elif u0.kind == uf.kind and len(got) == 3:
+                        den = t_dif if u0.kind == "diff" else t_abs
+                        for i in claim:
+                            p, q = den(u0.name, xs0[i]), den(sus[i].name, ys[i])
+                            if side == "left":
+                                p, q = q, p
+                            if abs(float(p - q)) <= 1e-9 * (abs(float(p)) + abs(float(q))):
+                                chk.count("cmp-borderline-skipped")
+                                continue
+                            if PYCMP[pyop](p, q) != got[i]:
+                                chk.fail(f"wrong-value|seq-compare|{side}|{u0.shape}|{uf.shape}|{sus[i].shape}",
+                                         f"{code} with a = {a_src}, b = {b_src}: element {i} returned {got[i]}; in kelvin {float(p)} vs {float(q)}",
+                                         {"python": snippet(src + RAISES_SRC + body + f"assert bad or bool(np.asarray(r).ravel()[{i}]) == {PYCMP[pyop](p, q)!r}, r\n"), "form": fname})
+                                break
+                else:
+                    outcomes[side][fname] = res
+            for side in ("right", "left"):
+                ask(f"c08.seqcmp\t{side}\t{u0.wire}\t" + ",".join(str(f2b(x)) for x in xs0) + f"\t{seqwire}", ("seqcmp", side, u0, sus, xs0, ys, outcomes[side]))
+    chk.extra["sequence_cases"] = nseq
+
+
+    # ---- reductions with a start value that carries units (`initial=`), all ordered pairs -------------
+    # q + a[0] + a[1] + ... / q - a[0] - ...: the reduction form of point +/- difference, difference + point,
+    # difference +/- difference and point - point; data of one and of two readings
+    RED_INIT = [("add", "np.add.reduce(a, initial=q)"), ("add", "np.sum(a, initial=q)"), ("add", "a.sum(initial=q)"),
+                ("sub", "np.subtract.reduce(a, initial=q)")]
+    for u in units:
+        for ui in units:
+            for n in (1, 2):
+                xs = readings(rng, n)
+                xi = readings(rng, 1)[0]
+                outcomes = {"add": {}, "sub": {}}
+                for op, expr in RED_INIT:
+                    a = unyt_array(xs, u.spelling)
+                    q = unyt_quantity(xi, ui.spelling)
+                    try:
+                        res = ("ok", eval(expr, {"np": np, "a": a, "q": q}))
+                    except Exception as e:  # noqa: BLE001
+                        res = ("err", core.exc_name(e))
+                    chk.case(("reduce-initial", expr, u.name, ui.name, n))
+                    chk.count(f"reduce-initial:{u.kind}-data,{ui.kind}-start")
+                    if res[0] == "ok":
+                        r = res[1]
+                        label = repr(getattr(r, "units", None))
+                        v = vals(r)[0]
+                        outcomes[op][expr] = ("ok", label, v)
+                        try:
+                            msg = t_check_reduce_initial(op, u.name, xs, ui.name, xi, label, v)
+                        except ValueError as e:
+                            msg = f"result labelled {label}: {e}"
+                        if msg:
+                            fam = "add.reduce" if op == "add" else "subtract.reduce"
+                            chk.fail(f"wrong-value|{fam}-initial|{u.shape}|{ui.shape}", f"{expr} with a = {xs} [{u.spelling}], q = {xi} [{ui.spelling}]: {msg}",
+                                     {"python": snippet(guarded(f"a = unyt_array({xs!r}, {u.spelling!r})\nq = unyt_quantity({xi!r}, {ui.spelling!r})") +
+                                                        f"try:\n    r = {expr}\nexcept Exception:\n    raise SystemExit(0)  # refused: nothing returned\n"
+                                                        f"m = t_check_reduce_initial({op!r}, {u.name!r}, {xs!r}, {ui.name!r}, {xi!r}, repr(r.units), float(np.asarray(r).ravel()[0]))\nassert m is None, m\n"),
+                                      "form": expr})
+                    else:
+                        outcomes[op][expr] = res
+                for op in ("add", "sub"):
+                    ask(f"c08.redinit\t{op}\t{u.wire}\t" + ",".join(str(f2b(x)) for x in xs) + f"\t{ui.wire}\t{f2b(xi)}",
+                        ("redinit", op, u, ui, xs, xi, outcomes[op]))
+
     # ---- correspondence: ask the model ---------------------------------------------------------
     try:
         replies = core.Model("drv_c08").ask([m[0] for m in model])
@@ -700,6 +914,73 @@ def compare(chk, line, exp, rep):
                 chk.disagree("c08.diff", f"{expr} [{u.name}]: unyt raises {res[1]}, model {rep}")
         elif rep[0] != "ok" or rep[1].replace(":", "") != repr(res[1].units) or not fclose(core.b2f(rep[2]), vals(res[1])[0], 1e3):
             chk.disagree("c08.diff", f"{expr} [{u.name}]: unyt returns {res[1]!r}, model {rep}")
+    elif kind == "coerce":
+        _, sus, ys, outcomes = exp
+        names = [u.name for u in sus]
+        for fname, oc in outcomes.items():
+            if oc[0] == "err":
+                if rep[0] != "err" or rep[1] != oc[1]:
+                    chk.disagree("c08.coerce", f"unyt_array({names}) [{fname}]: unyt raises {oc[1]}, model {rep}")
+                continue
+            _, label, vs = oc
+            if rep[0] != "ok" or rep[1].replace(":", "") != label:
+                chk.disagree("c08.coerce", f"unyt_array({names}) [{fname}]: unyt returns {vs} [{label}], model {rep}")
+                continue
+            mv = [core.b2f(int(b)) for b in rep[2].split(",")]
+            if len(mv) != len(vs) or not all(fclose(m, v, abs(v) + abs(y) + 1e3) for m, v, y in zip(mv, vs, ys)):
+                chk.disagree("c08.coerce", f"unyt_array of {list(zip(ys, names))} [{fname}]: unyt {vs} [{label}], model {mv}")
+    elif kind == "seqbin":
+        _, op, side, u0, sus, xs0, ys, outcomes = exp
+        names = [u.name for u in sus]
+        for fname, oc in outcomes.items():
+            what = f"{u0.name} {op} sequence {names} on the {side} [{fname}]"
+            if oc[0] == "err":
+                if rep[0] != "err" or rep[1] != oc[1]:
+                    chk.disagree("c08.seq" + op, f"{what}: unyt raises {oc[1]}, model {rep}")
+                continue
+            _, label, vs = oc
+            if rep[0] != "ok" or rep[1].replace(":", "") != label:
+                chk.disagree("c08.seq" + op, f"{what}: unyt returns {vs} [{label}], model {rep}")
+                continue
+            mv = [core.b2f(int(b)) for b in rep[2].split(",")]
+            if len(mv) != len(vs) or not all(fclose(m, v, abs(v) + abs(x) + abs(y) + 1e3) for m, v, x, y in zip(mv, vs, xs0, ys)):
+                chk.disagree("c08.seq" + op, f"{what} x={xs0} y={ys}: unyt {vs} [{label}], model {mv}")
+    elif kind == "seqcmp":
+        _, side, u0, sus, xs0, ys, outcomes = exp
+        names = [u.name for u in sus]
+        for fname, oc in outcomes.items():
+            what = f"{u0.name} {fname} sequence {names} on the {side}"
+            if oc[0] == "err":
+                if rep[0] != "err" or rep[1] != oc[1]:
+                    chk.disagree("c08.seqcmp", f"{what}: unyt raises {oc[1]}, model {rep}")
+                continue
+            _, pyop, got = oc
+            if rep[0] != "ok":
+                chk.disagree("c08.seqcmp", f"{what}: unyt returns {got}, model {rep}")
+                continue
+            ps = [core.b2f(int(b)) for b in rep[1].split(",")]
+            qs = [core.b2f(int(b)) for b in rep[2].split(",")]
+            for p, q, g in zip(ps, qs, got):
+                if abs(p - q) <= 1e-9 * (abs(p) + abs(q)):
+                    continue  # rounding decides
+                if PYCMP[pyop](p, q) != g:
+                    chk.disagree("c08.seqcmp", f"{what} x={xs0} y={ys}: unyt {got}, model compares {ps} with {qs}")
+                    break
+    elif kind == "redinit":
+        _, op, u, ui, xs, xi, outcomes = exp
+        for expr, oc in outcomes.items():
+            what = f"{expr} with a = {xs} [{u.name}], q = {xi} [{ui.name}]"
+            if oc[0] == "err":
+                if rep[0] != "err" or rep[1] != oc[1]:
+                    chk.disagree("c08.redinit", f"{what}: unyt raises {oc[1]}, model {rep}")
+                continue
+            _, label, v = oc
+            if rep[0] != "ok":
+                chk.disagree("c08.redinit", f"{what}: unyt returns {v} [{label}], model {rep}")
+                continue
+            mv = core.b2f(rep[2])
+            if rep[1].replace(":", "") != label or not fclose(mv, v, abs(v) + sum(abs(x) for x in xs) + 1e3):
+                chk.disagree("c08.redinit", f"{what}: unyt {v} [{label}], model {mv} [{rep[1]}]")
     elif kind == "conv":
         _, u, v, x, f, o, got, sc = exp
         if rep[0] != "ok" or got is None:
